@@ -149,6 +149,7 @@ let sem_natural (e : Sexp.t) : Sexp.t =
 let () =
   Ops.register "natural" op_natural;
   Ops.register "natural_small" op_natural;
+  Ops.register "natural_text" op_natural;
   Ops.register "is_regular" op_is_regular;
   Ops.register "mu_branches" op_mu_branches;
   Ops.register "sem_natural" sem_natural
